@@ -183,6 +183,24 @@ def run_sweep(T, tier, seed, optsets, name='core'):
                 hy[k] += 1 if h.get(k) else 0
             hy['all_hypotheses_hold'] += 1 if all(h.get(k) for k in ('wfb', 'grammarOK', 'linkedOK', 'plain')) else 0
     stats['theorem_hypotheses'] = hy
+    # -switch: how much of the real optimiser's output the validated-translation theorem covers
+    sh = {'programs': 0, 'rewritten': 0, 'swOK': 0, 'rewritten_and_swOK': 0, 'switchSafe': 0}
+    for r in allm:
+        h = model[r['id']].get('hyps') or {}
+        if 's' in r['opts'] and 'swOK' in h:
+            sh['programs'] += 1
+            sh['rewritten'] += 1 if h.get('rewritten') else 0
+            sh['swOK'] += 1 if h.get('swOK') else 0
+            sh['rewritten_and_swOK'] += 1 if h.get('swOK') and h.get('rewritten') else 0
+            # the end-to-end theorem C02_switch_same_as_default is about `-switch` alone (AST, no -inline)
+            safe = bool(h.get('switchSafe')) if r['opts'] == 's' else None
+            if r['opts'] == 's':
+                sh['programs_s_only'] = sh.get('programs_s_only', 0) + 1
+                sh['rewritten_s_only'] = sh.get('rewritten_s_only', 0) + (1 if h.get('rewritten') else 0)
+                sh['switchSafe'] += 1 if safe else 0
+                sh['rewritten_and_switchSafe'] = sh.get('rewritten_and_switchSafe', 0) + (1 if safe and h.get('rewritten') else 0)
+            res.setdefault('switch_hyps', {})[r['id']] = {'swOK': h.get('swOK'), 'rewritten': h.get('rewritten'), 'switchSafe': safe}
+    stats['switch_hypotheses'] = sh
     for r in mreqs:
         x = realby[r['id']]
         if x.get('irError') or not x.get('ir'):
@@ -230,7 +248,13 @@ def run_sweep(T, tier, seed, optsets, name='core'):
             for memo in ([True, False] if ('n' not in o and kind != 'skeleton') else [True]):
                 for ii, s in enumerate(ins):
                     k = '%s|%s|%d|%d' % (rid, e, 1 if memo else 0, ii)
-                    cases.append({'pkg': rid, 'k': k, 'entry': e, 'memo': memo, 'b64': L.b64(s)})
+                    c = {'pkg': rid, 'k': k, 'entry': e, 'memo': memo, 'b64': L.b64(s)}
+                    if ii % 3 == 2:
+                        # every third case is the SECOND use of its parser object (another input parsed first, then
+                        # Buffer/Reset/Parse): what a parse records must not depend on the instance's past
+                        c['warm'] = L.b64(ins[(ii * 7 + 1) % len(ins)])
+                        stats['second_use_cases'] = stats.get('second_use_cases', 0) + 1
+                    cases.append(c)
                     lst.append({'k': k, 'entry': e, 'memo': memo, 'bytes': L.bytes_of(s), 'spec': True})
         mcases[rid] = {'id': rid, 'tree': x['tree'], 'opts': o, 'cases': lst}
     robs = M.run(cases)
